@@ -120,7 +120,10 @@ def run_history(case):
             elif kind == 'restart':
                 write_cfg()
                 on_start()
-                hooks, log, rc, to, err = daemon_run(lambda h, dm: 'checking for renewal' in dm.stderr_text() and dm.stderr_text().count('checking for renewal') >= n_eps, 20)
+                # nothing is due: give the daemon time to load the configuration and the account (no dependency on log texts)
+                import time as _t
+                t_start = _t.monotonic()
+                hooks, log, rc, to, err = daemon_run(lambda h, dm: _t.monotonic() - t_start > 1.2, 20)
                 if rc is not None:
                     res['problems'].append(('restart-failed', 'step %d: the daemon ended (status %s) on a plain restart: %s' % (si, rc, err[-200:])))
                     break
